@@ -21,6 +21,7 @@ func verifRetrieveNetworkRule(s *filterlist.RuleStorage, idx int64) *rules.Netwo
 		// C19: any retrieval may fail (list closed, read error): the storage then yields nil
 		verifFaultCalls++
 		if verifBool(vn("fault", verifFaultCalls, "")) {
+			verifMarkFailed(verifRegIdx, idx)
 			return nil
 		}
 	}
@@ -185,8 +186,14 @@ func verifC19Tables(n, shape, domLen, urlLen, srcLen, srcTail int) {
 		engine.AddRule(r, idx)
 	}
 	verifFaulty, verifFaultCalls = true, 0
+	verifFailed = [8]bool{}
 	got := engine.MatchAll(req)
 	verifFaulty = false
+	for i, r := range rs {
+		if !verifFailed[i] && r.Match(req) {
+			verifAssert(verifRuleIn(r, got), "c19: a rule that can still be retrieved is served whatever happens to the others")
+		}
+	}
 	if verifFaultCalls > 0 {
 		verifReach("c19.retrieval")
 	}
